@@ -365,3 +365,390 @@ def crosscheck_fast_load(rep, prop, n=150):
                           {'case': {'regs': regs, 'block': block}, 'observed_vs_expected': d})
             break
     rep.extra['crosscheck_samples'] = rep.extra.get('crosscheck_samples', 0) + n
+
+
+# ---------------------------------------------------------------------------------------------------------------------
+# Block selection: the preamble of fast_load (everything before `memory = simulator.memory`) and next_block
+#
+# Ghost model of the tape: blocks[i] has start(i) (index of the first edge of its data bits), end(i) (index of its last
+# edge), fast_load(i); the tape position is state[1] (index of the next edge), max_index the index of the last edge.
+# Class invariant J (established by __init__, preserved by next_block): block_index < len(blocks) implies
+# block_data_index == start(block_index) and state[3] == end(block_index).
+#
+# Contract, from what LD-BYTES can do at the tape position p = state[1]: it needs the pilot tone and the sync pulses
+# of a block, so a block can be loaded only if its data has not begun yet: start(b) > p.  Hence
+#   * a block is skipped only if the tape has reached its data (start <= p) and is not at its last edge (p < max_index);
+#   * when the loop ends, the tape is at its last edge (p >= max_index), or the selected block has start > p, or no
+#     block is left (block_index == len(blocks): the function raises "unexpected end of tape");
+#   * the loop terminates: a block is skipped only while one remains (variant len(blocks) - block_index);
+#   * skipping goes to the next block in tape order and puts the tape on the edge after the skipped block's last edge
+#     (next_block: block_index + 1, state[1] = old state[3] + 1, J again) - or stops the tape after the last block;
+#   * the block handed to the loading code is blocks[block_index]; False is returned iff it is not fast-loadable,
+#     with no register or memory access before that.
+class _Blocks:
+    def __init__(self, n, W):
+        self.n = n
+        self.startF = z3.Function('blk_start', z3.BitVecSort(W), z3.BitVecSort(W))
+        self.endF = z3.Function('blk_end', z3.BitVecSort(W), z3.BitVecSort(W))
+        self.flF = z3.Function('blk_fast_load', z3.BitVecSort(W), z3.BoolSort())
+        self.made = []
+
+    def block(self, eng, idx):
+        i = sv(idx)
+        b = ObjModel(None, name='block')
+        st = SV(self.startF(i.t), 0, 1 << 24)
+        en = SV(self.endF(i.t), 0, 1 << 24)
+        eng.path.facts.append(z3.And(st.t >= 0, st.t <= (1 << 24), en.t >= 0, en.t <= (1 << 24), st.t <= en.t))
+        b.attrs.update({'start': st, 'end': en, 'fast_load': SB(self.flF(i.t)), 'keys': UNK, 'data': UNK})
+        b.index = idx
+        self.made.append(b)
+        return b
+
+
+def _selection_engine():
+    class SelEngine(simvc.SimEngine):
+        def getitem(self, base, idx, node):
+            if isinstance(base, _Blocks):
+                self.oblige('block_index_in_range', and_(cmpop('>=', idx, 0), cmpop('<', idx, base.n)), node)
+                return base.block(self, idx)
+            return super().getitem(base, idx, node)
+
+        def sym_builtin(self, f, name, args, kwargs, node):
+            if name == 'len' and len(args) == 1 and isinstance(args[0], _Blocks):
+                return args[0].n
+            return super().sym_builtin(f, name, args, kwargs, node)
+
+        def call(self, f, args, kwargs, node):
+            if f is len and len(args) == 1 and isinstance(args[0], _Blocks):
+                return args[0].n
+            return super().call(f, args, kwargs, node)
+    return SelEngine(inline_ok=lambda f: False, unknown_ok=True)
+
+
+def _tracer_model(eng, LT, W):
+    p = eng.path
+    n = SV(z3.BitVec('n_blocks', W), 1, 1 << 16)
+    bi = SV(z3.BitVec('block_index', W), 0, 1 << 16)
+    bdi = SV(z3.BitVec('block_data_index', W), 0, 1 << 24)
+    pos = SV(z3.BitVec('tape_index', W), 0, 1 << 24)
+    end3 = SV(z3.BitVec('block_end_index', W), 0, 1 << 24)
+    mx = SV(z3.BitVec('max_index', W), 0, 1 << 24)
+    for x in (n, bi, bdi, pos, end3, mx):
+        p.facts.append(z3.And(x.t >= x.lo, x.t <= x.hi))
+    p.n, p.bi0, p.bdi0, p.pos0, p.end0, p.mx = n, bi, bdi, pos, end3, mx
+    p.blocks = _Blocks(n, W)
+    p.state = SymList([UNK, pos, SV(z3.BitVec('end_of_tape', W), 0, 1 << 20), end3, UNK, UNK, UNK, UNK, UNK, UNK], 'state')
+    me = ObjModel(None, name='tracer', cls=LT.LoadTracer)
+    # the tape as get_edges builds it: edges[0..max_index]; blocks in tape order, each inside the edge list
+    B = p.blocks
+    nxt = (bi + 1).t
+    p.facts.append(z3.And(B.endF(bi.t) <= mx.t, B.endF(nxt) <= mx.t, B.startF(nxt) <= B.endF(nxt), B.endF(bi.t) < B.startF(nxt),
+                          B.endF(bi.t) >= 0, B.startF(nxt) >= 0))
+    p.edges = SymMem('edges', size=mx + 1)
+    me.attrs.update({'state': p.state, 'blocks': p.blocks, 'block_index': bi, 'block_data_index': bdi, 'max_index': mx, 'edges': p.edges,
+                     'pause': SB(z3.Bool('pause')), 'keys': UNK})
+    p.me = me
+    return me
+
+
+def _J(p, bi, bdi, end3):
+    """The class invariant at (block_index, block_data_index, state[3])."""
+    B = p.blocks
+    return or_(cmpop('>=', bi, p.n), and_(SB(sv(bdi).t == B.startF(sv(bi).t)), SB(sv(end3).t == B.endF(sv(bi).t))))
+
+
+def check_block_selection(rep, prop):
+    import skoolkit.loadtracer as LT
+    W = poly.W
+    fn = LT.LoadTracer.fast_load
+    node, _ = func_ast(fn)
+    cut = [i for i, s_ in enumerate(node.body) if isinstance(s_, ast.Assign) and ast.unparse(s_).startswith('memory = simulator.memory')]
+    if not cut:
+        raise LookupError('fast_load: `memory = simulator.memory` not found')
+    pre_stmts = node.body[:cut[0]]
+    loops = [n_ for s_ in pre_stmts for n_ in ast.walk(s_) if isinstance(n_, (ast.While, ast.For))]
+    if len(loops) != 1 or not isinstance(loops[0], ast.While):
+        raise LookupError('fast_load: expected exactly one while loop before `memory = simulator.memory`')
+    all_loops = sorted([n_ for n_ in ast.walk(node) if isinstance(n_, (ast.While, ast.For))], key=lambda n_: (n_.lineno, n_.col_offset))
+    q = fn.__qualname__
+    name = 'skoolkit.loadtracer.LoadTracer.fast_load[block selection: up to `memory = simulator.memory`]'
+
+    def start(eng):
+        p = eng.path
+        me = _tracer_model(eng, LT, W)
+        eng.assume(_J(p, p.bi0, p.bdi0, p.end0))
+        p.skips = 0
+
+        def next_block(e, a, k, n_):
+            # used through its contract (proved below): an arbitrary later block state satisfying J
+            p.skips += 1
+            bi2 = me.attrs['block_index'] + 1
+            me.attrs['block_index'] = ite(cmpop('>=', bi2, p.n), p.n, bi2)
+            return None
+        me.attrs['next_block'] = CallModel(next_block, 'next_block')
+        regs = SymList(simvc.initial_regs(), 'registers')
+        p.regs = regs
+        p.regs0 = list(regs.items)
+        sim = ObjModel(None, name='simulator')
+        p.mem = SymMem('mem')
+        sim.attrs.update({'registers': regs, 'memory': p.mem})
+
+        def sel_loop(e, node_):
+            # arbitrary loop-head state: any (block_index, block_data_index, tape position, state[3]) with J
+            bi = e.fresh('block_index_k', 0, 1 << 16)
+            bdi = e.fresh('block_data_index_k', 0, 1 << 24)
+            pos = e.fresh('tape_index_k', 0, 1 << 24)
+            end3 = e.fresh('block_end_index_k', 0, 1 << 24)
+            e.oblige('inv.establish', _J(p, p.bi0, p.bdi0, p.end0), node_)
+            e.assume(_J(p, bi, bdi, end3))
+            me.attrs.update({'block_index': bi, 'block_data_index': bdi})
+            p.state.items[1] = pos
+            p.state.items[3] = end3
+            p.head = (bi, bdi, pos, end3)
+            test = e.as_cond(e.ev_cond(node_.test))
+            started = cmpop('<=', bdi, pos)
+            not_last = cmpop('<', pos, p.mx)
+            if e.decide(test):
+                e.oblige('skip_only_if_the_tape_reached_the_block_data', started, node_)
+                e.oblige('skip_only_before_the_last_edge', not_last, node_)
+                # termination: the variant len(blocks) - block_index is positive here and next_block decreases it
+                e.oblige('progress.a_block_remains_to_skip_to', cmpop('<', bi, p.n), node_)
+                k0 = p.skips
+                e.exec_block(node_.body)
+                e.oblige('skip_is_one_next_block_call', p.skips == k0 + 1, node_)
+                raise PathEnd()
+            e.oblige('selected_block_data_not_begun_or_tape_at_last_edge_or_no_block_left', or_(not_(started), not_(not_last), cmpop('>=', bi, p.n)), node_)
+        eng.loop_invariants = {(q, all_loops.index(loops[0])): sel_loop}
+        p.locs = {'self': me, 'simulator': sim}
+        p.ret = eng.run_stmts(fn, pre_stmts, p.locs)
+        p.fell_through = p.ret is None
+
+    def post(p, prove):
+        if not hasattr(p, 'head') or not hasattr(p, 'fell_through'):
+            return
+        bi = p.head[0]
+        db = p.locs.get('data_block')
+        if p.fell_through:
+            prove('post.selected_block_is_blocks_at_block_index', isinstance(db, ObjModel) and getattr(db, 'index', None) is bi)
+            if isinstance(db, ObjModel):
+                prove('post.falls_through_only_for_a_fast_loadable_block', db.attrs['fast_load'])
+        else:
+            prove('post.returns_False', p.ret is False)
+            if isinstance(db, ObjModel):
+                prove('post.returns_False_only_for_a_block_that_is_not_fast_loadable', not_(db.attrs['fast_load']))
+        prove('frame.registers_untouched', all(a is b for a, b in zip(p.regs.items, p.regs0)))
+        prove('frame.memory_untouched', p.mem.arr is p.mem.arr0)
+    eng = _selection_engine()
+    FuncVC(rep, prop, fn, name, eng).run(start, post, replay_block_selection)
+
+    # next_block against its contract
+    nb = LT.LoadTracer.next_block
+    name2 = 'skoolkit.loadtracer.LoadTracer.next_block'
+
+    def start2(eng):
+        p = eng.path
+        me = _tracer_model(eng, LT, W)
+        eng.assume(_J(p, p.bi0, p.bdi0, p.end0))
+        eng.assume(cmpop('<', p.bi0, p.n))
+        p.stopped = 0
+
+        def stop_tape(e, a, k, n_):
+            p.stopped += 1
+            return None
+        me.attrs['stop_tape'] = CallModel(stop_tape, 'stop_tape')
+        eng.call_function(nb, [me, UNK])
+
+    def post2(p, prove):
+        me = p.me
+        bi1 = me.attrs['block_index']
+        prove('post.next_block_in_tape_order', cmpop('==', bi1, p.bi0 + 1))
+        last = cmpop('>=', p.bi0 + 1, p.n)
+        if p.stopped:
+            prove('post.tape_stopped_only_after_the_last_block', last)
+            prove('post.tape_stopped_once', p.stopped == 1)
+            return
+        prove('post.tape_not_stopped_before_the_last_block', not_(last))
+        prove('post.tape_on_the_edge_after_the_skipped_block', cmpop('==', p.state.items[1], p.end0 + 1))
+        prove('post.J', _J(p, bi1, me.attrs['block_data_index'], p.state.items[3]))
+        prove('post.next_edge_time', SB(sv(p.state.items[0]).t == z3.Select(p.edges.arr0, sv(p.end0 + 1).t)) if isinstance(p.state.items[0], SV) else False)
+    eng2 = _selection_engine()
+    FuncVC(rep, prop, nb, name2, eng2).run(start2, post2, replay_block_selection)
+    rep.assume('block selection: LoadTracer.__init__ establishes J (block_index = 0, block_data_index = blocks[0].start; state[3] = blocks[0].end is set where the state list is built) - by inspection; get_edges gives start(b) > end(b-1) - observed in the bounded runs')
+
+
+def replay_block_selection(vals, kind):
+    """Concrete search for the block-selection obligations: a pilotless pure-data block straight after a ROM block, or
+    after one stray pulse (the cases the selection loop exists for; more stray pulses are finding F20, judged separately
+    in block_selection_scenarios)."""
+    r = concrete_selection()
+    if r['diffs']:
+        return r
+    return block_selection_scenarios((0, 1))
+
+
+def concrete_selection(trials=3000):
+    """The real next_block and the real selection preamble of fast_load on small concrete tapes (a LoadTracer made with
+    __new__, only the attributes these two methods use), against the contract evaluated concretely."""
+    import io
+    import contextlib
+    import skoolkit.loadtracer as LT
+    rnd = random.Random(13)
+
+    class Blk:
+        def __init__(self, start, end):
+            self.start, self.end, self.keys, self.fast_load, self.data = start, end, None, False, ()
+
+    class Sim:
+        def __init__(self):
+            self.registers = [0] * 32
+            self.memory = [0] * 65536
+    for t in range(trials):
+        n = rnd.randrange(1, 5)
+        blocks = []
+        e = -1
+        for b in range(n):
+            st = e + 1 + rnd.choice((0, 0, 1, 2, 5))
+            e = st + rnd.randrange(0, 6)
+            blocks.append(Blk(st, e))
+        mx = e + rnd.choice((0, 0, 1))
+        edges = [100 * i for i in range(mx + 1)]
+        bi = rnd.randrange(n)
+        pos = rnd.randrange(0, mx + 1) if rnd.random() < 0.7 else rnd.choice((blocks[bi].start, blocks[bi].end, min(mx, blocks[bi].end + 1), mx))
+        for which in ('next_block', 'selection'):
+            tr = LT.LoadTracer.__new__(LT.LoadTracer)
+            tr.blocks, tr.edges, tr.max_index, tr.block_index, tr.block_data_index = blocks, edges, mx, bi, blocks[bi].start
+            tr.state = [0, pos, 0, blocks[bi].end, 0, 0, 0, 0, 0, 0]
+            tr.pause, tr.keys = 1, None
+            calls = [0]
+            real_next = LT.LoadTracer.next_block
+
+            def counted(tstates, tr=tr, calls=calls):
+                calls[0] += 1
+                if calls[0] > 50:
+                    raise RecursionError('the block selection loop does not terminate')
+                return real_next(tr, tstates)
+            if which == 'selection':
+                tr.next_block = counted
+            # the contract, concretely
+            xbi, xpos, xend, xbdi, stopped = bi, pos, blocks[bi].end, blocks[bi].start, False
+            steps = 1 if which == 'next_block' else 99
+            while steps and (which == 'next_block' or (xbdi <= xpos < mx)):
+                steps -= 1
+                xbi += 1
+                if xbi >= n:
+                    xbi, stopped = n, True
+                    break
+                xpos = xend + 1
+                xbdi, xend = blocks[xbi].start, blocks[xbi].end
+            got_exc = None
+            with contextlib.redirect_stdout(io.StringIO()):
+                try:
+                    if which == 'next_block':
+                        tr.next_block(0)
+                    else:
+                        ret = tr.fast_load(Sim())
+                except LT.SkoolKitError as ex:
+                    got_exc = 'SkoolKitError'
+                except Exception as ex:
+                    got_exc = repr(ex)[:100]
+            exp = {'block_index': xbi}
+            got = {'block_index': tr.block_index}
+            if not stopped:
+                exp.update({'tape_index': xpos, 'block_data_index': xbdi, 'block_end_index': xend})
+                got.update({'tape_index': tr.state[1], 'block_data_index': tr.block_data_index, 'block_end_index': tr.state[3]})
+                if xpos != pos:
+                    exp['next_edge_time'] = edges[xpos]
+                    got['next_edge_time'] = tr.state[0]
+            if which == 'selection':
+                exp['outcome'] = 'SkoolKitError' if stopped else None
+                got['outcome'] = got_exc
+            elif got_exc:
+                got['outcome'] = got_exc
+            if got != exp:
+                return {'case': {'blocks': [(b.start, b.end) for b in blocks], 'max_index': mx, 'block_index': bi, 'tape_index': pos, 'method': which},
+                        'diffs': [('%s on blocks %s, max_index %d, block_index %d, tape index %d' % (which, [(b.start, b.end) for b in blocks], mx, bi, pos), got, exp)]}
+    return {'case': {}, 'diffs': []}
+
+
+def block_selection_scenarios(pulses=(0, 1, 2, 3)):
+    """Tapes where a pilotless pure-data block follows a ROM block after the given numbers of stray pulses; the bytes
+    loaded by two CALL 0x0556 with fast loading must equal the bytes loaded by the simulated ROM routine."""
+    import io
+    import os
+    import contextlib
+    import tempfile
+    import shutil
+    from skoolkit import tap2sna
+    from skoolkit.snapshot import Snapshot
+    tmp = tempfile.mkdtemp(prefix='c13sel_')
+    w = lambda v, k=2: list(v.to_bytes(k, 'little'))
+
+    def par(d):
+        x = 0
+        for b in d:
+            x ^= b
+        return x
+
+    def std(block, pause=1000):
+        return [0x10] + w(pause) + w(len(block)) + block
+
+    def hdr(title, start, length, typ):
+        h = [0, typ] + [ord(c) for c in title.ljust(10)] + w(length) + w(start) + (w(length) if typ == 0 else [0, 0])
+        return h + [par(h)]
+
+    def dat(data):
+        d = [255] + list(data)
+        return d + [par(d)]
+    try:
+        org = 32768
+        basic = [0, 10, 16, 0, 239, 34, 34, 175, 58, 249, 192, 176, 34] + [ord(c) for c in str(org)] + [34, 13]
+        code = [0xDD, 0x21, 0x00, 0xC0, 0x11, 0x04, 0x00, 0x37, 0x9F, 0xCD, 0x56, 0x05,
+                0xDD, 0x21, 0x04, 0xC0, 0x11, 0x04, 0x00, 0x37, 0x9F, 0xCD, 0x56, 0x05, 0x18, 0xFE]
+        stop = org + len(code) - 2
+        diffs = []
+        for npulses in pulses:
+            tzx = list(b'ZXTape!\x1a\x01\x14')
+            tzx += std(hdr('loader', 10, len(basic), 0)) + std(dat(basic)) + std(hdr('code', org, len(code), 3)) + std(dat(code))
+            tzx += std(dat([1, 2, 4, 8]))
+            if npulses:
+                tzx += [0x13, npulses] + w(2168) * npulses
+            junk = dat([255, 255, 255, 255])
+            tzx += [0x14] + w(855) + w(1710) + [8] + w(0) + w(len(junk), 3) + junk
+            tzx += std(dat([16, 32, 64, 128]))
+            fn = os.path.join(tmp, 't%d.tzx' % npulses)
+            with open(fn, 'wb') as f:
+                f.write(bytes(tzx))
+            res = {}
+            for fast in (0, 1):
+                out = os.path.join(tmp, 'o%d_%d.z80' % (npulses, fast))
+                with contextlib.redirect_stdout(io.StringIO()), contextlib.redirect_stderr(io.StringIO()):
+                    try:
+                        tap2sna.main(['--start=%d' % stop, '-c', 'fast-load=%d' % fast, '-c', 'timeout=300', fn, out])
+                    except (SystemExit, Exception) as ex:
+                        res[fast] = 'failed: %r' % (ex,)
+                        continue
+                ram = list(Snapshot.get(out).ram())
+                res[fast] = ram[49152 - 16384:49152 - 16384 + 8]
+            if res.get(0) != res.get(1):
+                diffs.append(('bytes at 49152 after two CALL 0x0556, %d stray pulse(s) before a pilotless data block' % npulses, {'fast-load=1': res.get(1), 'fast-load=0': res.get(0)}, npulses))
+        return {'case': {'block_selection': list(pulses)}, 'diffs': diffs}
+    finally:
+        shutil.rmtree(tmp, ignore_errors=True)
+
+
+def _scenario_worker(n):
+    return block_selection_scenarios((n,))['diffs']
+
+
+def block_selection_bounded(rep, prop):
+    """B: the stray-pulse tapes through the real tap2sna, fast-load=1 against fast-load=0."""
+    from multiprocessing import Pool
+    from props import common
+    pulses = (0, 1, 2, 3)
+    with Pool(min(common.NCPU, len(pulses))) as pool:
+        res = pool.map(_scenario_worker, pulses)
+    rep.bounded.append({'function': 'skoolkit.tap2sna.main -> LoadTracer.fast_load (block selection)', 'contract': 'bytes loaded by two CALL 0x0556 equal with fast-load=1 and fast-load=0 when a pilotless data block sits between two ROM blocks',
+                        'bound': '4 tapes (0..3 stray pulses before the pilotless block) x fast-load {0, 1}', 'evaluations': 2 * len(pulses)})
+    for n, diffs in zip(pulses, res):
+        for d in diffs:
+            rep.violation('%s/block-selection/pilotless-block-after-%d-stray-pulses' % (prop, n), '%s: %s' % (d[0], d[1]), {'case': {'block_selection': [n]}, 'observed_vs_expected': [list(map(str, d))]})
